@@ -16,6 +16,7 @@ pub fn main(args: &[String]) -> i32 {
             println!("lossless: {:?}", crate::props::c01::lossless(&text, &tree));
             0
         }
+<<<<<<< HEAD
         Some("lua_ast") => {
             // vcheck --tool lua_ast <level 0..5> <count> [seed] : print generated programs and the luars verdict
             use crate::gens::lua_ast as la;
@@ -107,11 +108,44 @@ pub fn main(args: &[String]) -> i32 {
                         }
                     }
                 }
+=======
+        Some("flow") => {
+            // vcheck --tool flow <file.lua> [nostd]: inferred type at every __probe(id, x) + VM observations + diagnostics
+            let text = std::fs::read_to_string(&args[1]).expect("read");
+            let nostd = args.get(2).map(|s| s == "nostd").unwrap_or(false);
+            let mut ws = if nostd { emmylua_code_analysis::VirtualWorkspace::new() } else { emmylua_code_analysis::VirtualWorkspace::new_with_init_std_lib() };
+            let inf = crate::props::c15::infer_probes(&mut ws, &text).expect("analysis");
+            let mut ids: Vec<&u32> = inf.keys().collect();
+            ids.sort();
+            for id in ids {
+                match &inf[id] {
+                    crate::props::c15::Inferred::Type(t) => println!("probe {id}: inferred {}   [{:?}]", crate::props::c15::show_type(&ws, t), t),
+                    crate::props::c15::Inferred::Err(e) => println!("probe {id}: infer error {e}"),
+                }
+            }
+            let mut vm = crate::oracle::luaexec::Vm::new();
+            let used: Vec<u8> = (0..5u8).filter(|k| text.contains(&format!("__c{}", k + 1))).collect();
+            for env in 0u8..32 {
+                if (0..5u8).any(|k| env >> k & 1 == 1 && !used.contains(&k)) {
+                    continue;
+                }
+                let opaque: Vec<bool> = (0..5).map(|k| env >> k & 1 == 1).collect();
+                let (ev, end) = vm.run(&text, &opaque, 1_000_000);
+                println!("env {:05b}: {:?} {:?}", env, ev, end);
+            }
+            let fid = ws.def_file("flow_case.lua", &text);
+            for d in ws.analysis.diagnose_file(fid, tokio_util::sync::CancellationToken::new()).unwrap_or_default() {
+                println!("diag {:?} {}:{} {}", d.code, d.range.start.line, d.range.start.character, d.message);
+>>>>>>> ag-flow
             }
             0
         }
         _ => {
+<<<<<<< HEAD
             eprintln!("tools: parse | lua_ast | lsp | nest-thresholds");
+=======
+            eprintln!("tools: parse | flow");
+>>>>>>> ag-flow
             2
         }
     }
